@@ -275,7 +275,8 @@ class GeneralizedPerspectiveCorrection(darsia.TransformationCorrection):
         fit_options: dict = {},
     ):
         # Setup transformation
-        fit_options["coordinatesystem_dst"] = coordinatesystem_dst
+        # NOTE: Do not modify the (possibly shared default) input dictionary.
+        fit_options = {**fit_options, "coordinatesystem_dst": coordinatesystem_dst}
         transformation = GeneralizedPerspectiveTransformation()
         transformation.fit(
             pts_src,
